@@ -126,6 +126,18 @@ func loadKnown(id string) []knownFinding {
 	return out
 }
 
+// OpenKeys returns the keys of the open known findings of a property, for checks that must
+// look past a recorded difference to see whether anything unrecorded differs as well.
+func OpenKeys(id string) map[string]bool {
+	out := map[string]bool{}
+	for _, k := range loadKnown(id) {
+		if k.Status == "open" {
+			out[k.Key] = true
+		}
+	}
+	return out
+}
+
 type state struct {
 	mu         sync.Mutex
 	sh         shard
